@@ -19,4 +19,6 @@ Definition find_panic : option (list bit_op) :=
        match fst r with Some p => Some p | None =>
          match snd r with [] => None | next => go f (known ++ next) next end end end) 64%nat [(s0, [])] [(s0, [])].
 Eval vm_compute in ("cex"%string,
+  (* no table (state bound exceeded) means nothing to search here; the harness searches the crate itself *)
+  if ext_ps2_states =? 0 then [] else
   match find_panic with Some p => [(map enc_op p, [9], [0])] | None => [] end).
